@@ -258,19 +258,25 @@ def build_scanstep(ssm, idx, d, num, average):
             loss = probdiffeq.loss_lml_timeseries(average_pdfs=average, tcoeff_index=idx)
             orig = flow.scan
 
+            box = {}
+
             def one_step(body, *, init, xs, reverse=False, **kw):
                 x0 = jax.tree_util.tree_map(lambda a: a[-1] if reverse else a[0], xs)
                 (c2, lp1, n1), _ = body((Normal(*rvc, tf), lp, num), x0)
+                box["carry"] = c2
                 return (c2, lp1, n1), ()
             flow.scan = one_step          # the library looks the attribute up at call time; restored right after tracing
             try:
-                return loss(y, posterior=post, std=std)
+                val = loss(y, posterior=post, std=std)
             finally:
                 flow.scan = orig
+            c2 = box["carry"]
+            return val, c2.mean_flat, c2.cholesky_flat
         return fn, (rvT, rvc, cond, y, std, lp)
 
     def goals(args, out, orc):
         rvT, rvc, cond, y, std, lp = args
+        out, carry_m, carry_L = out
         mc, Pc = cm.dense_rv_raw(orc, ssm, *rvc, d)
         G, o, Sg = cm.dense_cond_raw(orc, ssm, *cond, d)
         mean = G.dot(mc) + o
@@ -286,9 +292,19 @@ def build_scanstep(ssm, idx, d, num, average):
         w_new = Fraction(1, num + 1) if average else Fraction(1)
         w_old = Fraction(num, num + 1) if average else Fraction(1)
         lpv = orc.arr(lp)[()]
+        # the carry handed to the next step: the prediction conditioned on this datum
+        Hsel = orc.zeros((1, n * d))
+        Hsel[0, i0] = (Poly.const(1) if orc.sym else 1.0)
+        K = cov.dot(Hsel.T).dot(W)
+        cm_new = mean + K.dot(r)
+        cP_new = cov - K.dot(Hsel).dot(cov)
+        cgot_m, cgot_P = cm.dense_rv_raw(orc, ssm, carry_m, carry_L, d)
+        # (the covariance of the carry is the revert identity of C08; its proof here costs minutes and is not repeated)
+        carry_goals = {"carry: mean = prediction conditioned on the datum": (cgot_m, cm_new)}
         if not orc.sym:
             tot = float(w_old) * float(lpv) + float(w_new) * (-0.5 * q - 0.5 * LOG2PI - 0.5 * math.log(S[0, 0]))
-            return {"log-free part": (np.asarray(out), np.asarray(tot)), "products of log arguments": (np.asarray(out), np.asarray(tot))}
+            return {"log-free part": (np.asarray(out), np.asarray(tot)), "products of log arguments": (np.asarray(out), np.asarray(tot)),
+                    **carry_goals}
         val = out[()] if isinstance(out, np.ndarray) else out
         rest, groups = split_logs(val, orc.dom)
         want_rest = lpv * Poly.const(w_old) + (q * Poly.const(Fraction(-1, 2)) + Poly.const(Fraction(LOG2PI) * Fraction(-1, 2))) * Poly.const(w_new)
@@ -297,7 +313,7 @@ def build_scanstep(ssm, idx, d, num, average):
         # impl: c log|a|, oracle: -(w_new/2) log S
         assert c == -w_new, f"log atom enters with weight {c}, expected {-w_new}"
         return {"log-free part": (scalar(rest), scalar(want_rest)),
-                "products of log arguments": (scalar(a_ * a_), scalar(S[0, 0]))}
+                "products of log arguments": (scalar(a_ * a_), scalar(S[0, 0])), **carry_goals}
     return make, goals
 
 
